@@ -1,9 +1,692 @@
-(** C03 — proofs about the model of rule application (model/C03_Model.v). *)
-From Coq Require Import List NArith ZArith Bool Lia.
+(** C03 — proofs about the model of rule application (model/C03_Model.v): gluing a rule onto a host along a match.
+    Stdlib lists only. *)
+From Coq Require Import List NArith ZArith Bool Lia Permutation.
 From SK Require Import lib.Tok lib.LGraph model.C03_Model.
 Import ListNotations.
 Local Open Scope Z_scope.
 
-(** the reactant tuple of a glued node is the host's tuple *)
-Lemma node_glue_left hn pn : iG (node_glue hn pn) = iG hn.
-Proof. reflexivity. Qed.
+(** * Boolean helpers *)
+Lemma nodupb_NoDup l : nodupb l = true -> NoDup l.
+Proof.
+  induction l as [|x r IH]; simpl; intros H; [constructor|].
+  apply andb_prop in H. destruct H as [H1 H2]. constructor; [|auto].
+  intro I. apply mem_spec in I. rewrite I in H1. discriminate.
+Qed.
+
+Ltac eqb_cases :=
+  repeat match goal with
+         | |- context [N.eqb ?x ?y] => destruct (N.eqb_spec x y)
+         | H : context [N.eqb ?x ?y] |- _ => destruct (N.eqb_spec x y)
+         end; subst; simpl in *; try congruence; try discriminate; auto.
+
+Lemma peq_sym1 a b u v : peq a b u v = peq b a u v.
+Proof. unfold peq. eqb_cases. Qed.
+Lemma peq_sym2 a b u v : peq a b u v = peq a b v u.
+Proof. unfold peq. eqb_cases. Qed.
+Lemma peq_swap a b u v : peq a b u v = peq u v a b.
+Proof. unfold peq. eqb_cases. Qed.
+Lemma peq_trans a b u v c d : peq a b u v = true -> peq a b c d = true -> peq u v c d = true.
+Proof. unfold peq. intros H1 H2. eqb_cases. Qed.
+Lemma peq_refl a b : peq a b a b = true.
+Proof. unfold peq. rewrite !N.eqb_refl. reflexivity. Qed.
+
+(** * Association lists and node updates *)
+Lemma assoc_upd {V} (l : list (N * V)) n (f : V -> V) k :
+  assoc k (map (fun p => if N.eqb (fst p) n then (fst p, f (snd p)) else p) l)
+  = if N.eqb k n then option_map f (assoc k l) else assoc k l.
+Proof.
+  induction l as [|[k' v] r IH]; simpl.
+  - destruct (N.eqb k n); reflexivity.
+  - destruct (N.eqb_spec k' n); simpl.
+    + subst. destruct (N.eqb_spec k n); simpl; [reflexivity|]. rewrite IH.
+      destruct (N.eqb_spec k n); [contradiction|reflexivity].
+    + destruct (N.eqb_spec k k'); simpl.
+      * subst. destruct (N.eqb_spec k' n); [contradiction|reflexivity].
+      * exact IH.
+Qed.
+
+Section Upd.
+  Context {A B : Type}.
+  Implicit Type g : lgraph A B.
+  Lemma label_upd g n f k : label (upd_node g n f) k = if N.eqb k n then option_map f (label g k) else label g k.
+  Proof. unfold label, upd_node; simpl. apply assoc_upd. Qed.
+  Lemma ids_upd g n f : node_ids (upd_node g n f) = node_ids g.
+  Proof.
+    unfold node_ids, upd_node; simpl. rewrite map_map. apply map_ext. intros [k v]; simpl. destruct (N.eqb k n); reflexivity.
+  Qed.
+  Lemma edges_upd g n f : gedges (upd_node g n f) = gedges g.
+  Proof. reflexivity. Qed.
+  Lemma has_node_label g n : has_node g n = true <-> exists a, label g n = Some a.
+  Proof. unfold has_node. destruct (label g n); split; intros H; eauto; try discriminate. destruct H; discriminate. Qed.
+End Upd.
+
+(** * Unordered-pair lookups *)
+Section Edges.
+  Context {B : Type}.
+  Implicit Type es : list (N * N * B).
+
+  Lemma find_edge_peq es a b u v : peq a b u v = true -> find_edge a b es = find_edge u v es.
+  Proof.
+    intros H. induction es as [|[[x y] z] r IH]; simpl; [reflexivity|]. rewrite IH.
+    change ((N.eqb x a && N.eqb y b) || (N.eqb x b && N.eqb y a)) with (peq x y a b).
+    change ((N.eqb x u && N.eqb y v) || (N.eqb x v && N.eqb y u)) with (peq x y u v).
+    destruct (peq x y a b) eqn:E1, (peq x y u v) eqn:E2; try reflexivity.
+    - rewrite (peq_trans _ _ _ _ _ _ (eq_trans (peq_swap a b x y) E1) H) in E2. discriminate.
+    - assert (peq u v a b = true) by (rewrite peq_swap; exact H).
+      rewrite (peq_trans _ _ _ _ _ _ (eq_trans (peq_swap u v x y) E2) H0) in E1. discriminate.
+  Qed.
+
+  Lemma find_edge_app es1 es2 a b :
+    find_edge a b (es1 ++ es2) = match find_edge a b es1 with Some x => Some x | None => find_edge a b es2 end.
+  Proof.
+    induction es1 as [|[[x y] z] r IH]; simpl; [reflexivity|].
+    destruct ((N.eqb x a && N.eqb y b) || (N.eqb x b && N.eqb y a)); [reflexivity|exact IH].
+  Qed.
+
+  Lemma find_edge_one a b u v (x : B) : find_edge a b [(u, v, x)] = if peq u v a b then Some x else None.
+  Proof. reflexivity. Qed.
+
+  Lemma find_edge_set es a b u v (x : B) :
+    find_edge a b (map (fun e => let '(p, q, y) := e in if peq p q u v then (p, q, x) else e) es)
+    = if peq u v a b then option_map (fun _ => x) (find_edge a b es) else find_edge a b es.
+  Proof.
+    induction es as [|[[p q] y] r IH]; simpl.
+    - destruct (peq u v a b); reflexivity.
+    - change ((N.eqb p a && N.eqb q b) || (N.eqb p b && N.eqb q a)) with (peq p q a b).
+      destruct (peq p q u v) eqn:E1; simpl;
+        change ((N.eqb p a && N.eqb q b) || (N.eqb p b && N.eqb q a)) with (peq p q a b).
+      + destruct (peq p q a b) eqn:E2.
+        * rewrite (peq_trans _ _ _ _ _ _ E1 E2). reflexivity.
+        * rewrite IH. reflexivity.
+      + destruct (peq p q a b) eqn:E2.
+        * destruct (peq u v a b) eqn:E3; [|reflexivity].
+          assert (peq a b u v = true) by (rewrite peq_swap; exact E3).
+          rewrite (peq_trans _ _ _ _ _ _ (eq_trans (peq_swap a b p q) E2) H) in E1. discriminate.
+        * exact IH.
+  Qed.
+
+  Lemma find_edge_in es a b x : find_edge a b es = Some x -> exists p q, In (p, q, x) es /\ peq p q a b = true.
+  Proof.
+    induction es as [|[[p q] y] r IH]; simpl; [discriminate|].
+    change ((N.eqb p a && N.eqb q b) || (N.eqb p b && N.eqb q a)) with (peq p q a b).
+    destruct (peq p q a b) eqn:E.
+    - intros [= ->]. exists p, q. auto.
+    - intros H. destruct (IH H) as (p' & q' & I & E'). exists p', q'. auto.
+  Qed.
+
+  Lemma find_edge_none_in es a b p q x : find_edge a b es = None -> In (p, q, x) es -> peq p q a b = false.
+  Proof.
+    induction es as [|[[p' q'] y] r IH]; simpl; [intros _ []|].
+    change ((N.eqb p' a && N.eqb q' b) || (N.eqb p' b && N.eqb q' a)) with (peq p' q' a b).
+    destruct (peq p' q' a b) eqn:E; [discriminate|].
+    intros H [I|I]; [inversion I; subst; exact E|auto].
+  Qed.
+End Edges.
+
+Lemma find_edge_map {B C} (f : B -> C) (es : list (N * N * B)) a b :
+  find_edge a b (map (fun e => let '(u, v, o) := e in (u, v, f o)) es) = option_map f (find_edge a b es).
+Proof.
+  induction es as [|[[u v] o] r IH]; simpl; [reflexivity|].
+  destruct ((N.eqb u a && N.eqb v b) || (N.eqb u b && N.eqb v a)); [reflexivity|exact IH].
+Qed.
+
+(** * The host lifted to an ITS *)
+Definition lift (o : Z) : iedge := (o, o, 0).
+Lemma adj_its_of_host host a b : adj (its_of_host host) a b = option_map lift (adj host a b).
+Proof. unfold adj, its_of_host; simpl. apply (find_edge_map lift). Qed.
+Lemma label_its_of_host host n : label (its_of_host host) n = option_map (fun t => IN t t 0 None) (label host n).
+Proof.
+  unfold label, its_of_host; simpl. induction (gnodes host) as [|[k v] r IH]; simpl; [reflexivity|].
+  destruct (N.eqb n k); [reflexivity|exact IH].
+Qed.
+Lemma ids_its_of_host host : node_ids (its_of_host host) = node_ids host.
+Proof. unfold node_ids, its_of_host; simpl. rewrite map_map. reflexivity. Qed.
+
+(** * Node gluing *)
+Lemma glue_nodes_edges T rc m : gedges (glue_nodes T rc m) = gedges T.
+Proof.
+  revert T. induction m as [|[p h] r IH]; intros T; simpl; [reflexivity|].
+  unfold glue_nodes in *. simpl. destruct (label rc p); [|apply IH].
+  destruct (has_node T h); rewrite IH; reflexivity.
+Qed.
+Lemma glue_nodes_ids T rc m : node_ids (glue_nodes T rc m) = node_ids T.
+Proof.
+  revert T. induction m as [|[p h] r IH]; intros T; simpl; [reflexivity|].
+  unfold glue_nodes in *. simpl. destruct (label rc p); [|apply IH].
+  destruct (has_node T h); rewrite IH; [apply ids_upd|reflexivity].
+Qed.
+Lemma glue_nodes_iG T rc m n : option_map iG (label (glue_nodes T rc m) n) = option_map iG (label T n).
+Proof.
+  revert T. induction m as [|[p h] r IH]; intros T; simpl; [reflexivity|].
+  unfold glue_nodes in *. simpl. destruct (label rc p) as [pn|]; [|apply IH].
+  destruct (has_node T h); rewrite IH; [|reflexivity].
+  rewrite label_upd. destruct (N.eqb n h); [|reflexivity]. destruct (label T n); reflexivity.
+Qed.
+Lemma glue_nodes_other T rc m n : ~ In n (map snd m) -> label (glue_nodes T rc m) n = label T n.
+Proof.
+  revert T. induction m as [|[p h] r IH]; intros T Hn; simpl; [reflexivity|].
+  unfold glue_nodes in *. simpl in *. destruct (label rc p) as [pn|]; [|apply IH; tauto].
+  destruct (has_node T h); rewrite IH by tauto; [|reflexivity].
+  rewrite label_upd. destruct (N.eqb_spec n h); [subst; tauto|reflexivity].
+Qed.
+Lemma glue_nodes_at T rc m p h pn hn :
+  NoDup (map snd m) -> In (p, h) m -> NoDup (map fst m) -> label rc p = Some pn -> label T h = Some hn ->
+  label (glue_nodes T rc m) h = Some (node_glue hn pn).
+Proof.
+  revert T. induction m as [|[p0 h0] r IH]; intros T Hs Hin Hf Hp Hh; [destruct Hin|].
+  simpl in Hs, Hf. inversion Hs as [|? ? Hs1 Hs2]; subst. inversion Hf as [|? ? Hf1 Hf2]; subst.
+  unfold glue_nodes in *. simpl. destruct Hin as [E|Hin].
+  - inversion E; subst. rewrite Hp.
+    assert (Hhn : has_node T h = true) by (apply has_node_label; eauto). rewrite Hhn.
+    fold (glue_nodes (upd_node T h (fun hn0 => node_glue hn0 pn)) rc r).
+    rewrite glue_nodes_other by exact Hs1. rewrite label_upd, N.eqb_refl, Hh. reflexivity.
+  - assert (h <> h0) by (intro; subst; apply Hs1; change h0 with (snd (p, h0)); apply in_map; exact Hin).
+    destruct (label rc p0) as [pn0|]; [|apply IH; auto].
+    destruct (has_node T h0); apply IH; auto.
+    rewrite label_upd. destruct (N.eqb_spec h h0); [contradiction|exact Hh].
+Qed.
+
+(** * Edge merging: pointwise characterisation *)
+Definition img (m : mapping) (e : N * N * iedge) : option (N * N) :=
+  let '(u, v, _) := e in match mget m u, mget m v with Some hu, Some hv => Some (hu, hv) | _, _ => None end.
+Definition hits (m : mapping) (e : N * N * iedge) (a b : N) : bool :=
+  match img m e with Some (hu, hv) => peq hu hv a b | None => false end.
+Fixpoint find_hit (m : mapping) (es : list (N * N * iedge)) (a b : N) : option iedge :=
+  match es with
+  | [] => None
+  | e :: r => if hits m e a b then Some (snd e) else find_hit m r a b
+  end.
+
+(** what one template edge does to the current bond [cur] of its image pair; outer None = no ITS produced *)
+Definition merge (cur : option iedge) (x : iedge) : option iedge :=
+  match cur with
+  | None => Some x
+  | Some y => if Z.eqb (eG x) 0
+              then if Z.odd (eH y + eH x) then None else Some (eG y, eH y + eH x, eS y + eS x)
+              else Some x
+  end.
+
+(** no two edges of the list are mapped onto the same host pair *)
+Fixpoint distinct_images (m : mapping) (es : list (N * N * iedge)) : Prop :=
+  match es with
+  | [] => True
+  | e :: r => (forall a b, hits m e a b = true -> find_hit m r a b = None) /\ distinct_images m r
+  end.
+
+Lemma fold_glue_none m es : fold_left (glue_edge m) es None = None.
+Proof. induction es; simpl; auto. Qed.
+
+Lemma glue_edge_nodes m T e T' : glue_edge m (Some T) e = Some T' -> gnodes T' = gnodes T.
+Proof.
+  destruct e as [[u v] x]. simpl. destruct (mget m u) as [hu|]; [|intros [= <-]; reflexivity].
+  destruct (mget m v) as [hv|]; [|intros [= <-]; reflexivity].
+  destruct (adj T hu hv) as [y|]; [|intros [= <-]; reflexivity].
+  destruct (Z.eqb (eG x) 0); [destruct (Z.odd _); [discriminate|]|]; intros [= <-]; reflexivity.
+Qed.
+Lemma fold_glue_nodes m es T T' : fold_left (glue_edge m) es (Some T) = Some T' -> gnodes T' = gnodes T.
+Proof.
+  revert T. induction es as [|e r IH]; cbn [fold_left]; intros T H; [inversion H; reflexivity|].
+  destruct (glue_edge m (Some T) e) as [T1|] eqn:E; [|rewrite fold_glue_none in H; discriminate].
+  rewrite (IH _ H). eapply glue_edge_nodes; eauto.
+Qed.
+
+Lemma adj_set_edge (T : its) u v x a b :
+  adj (set_edge T u v x) a b = if peq u v a b then option_map (fun _ => x) (adj T a b) else adj T a b.
+Proof. unfold adj, set_edge; simpl. apply (find_edge_set (gedges T) a b u v x). Qed.
+
+(** one step *)
+Lemma glue_edge_step m T e T' a b :
+  glue_edge m (Some T) e = Some T' ->
+  if hits m e a b then exists r, merge (adj T a b) (snd e) = Some r /\ adj T' a b = Some r
+  else adj T' a b = adj T a b.
+Proof.
+  destruct e as [[u v] x]. unfold hits, img. simpl.
+  destruct (mget m u) as [hu|]; [|intros [= <-]; reflexivity].
+  destruct (mget m v) as [hv|]; [|intros [= <-]; reflexivity].
+  destruct (adj T hu hv) as [y|] eqn:Ea.
+  - destruct (Z.eqb (eG x) 0) eqn:E0.
+    + destruct (Z.odd (eH y + eH x)) eqn:Eo; [discriminate|]. intros [= <-].
+      rewrite adj_set_edge. destruct (peq hu hv a b) eqn:Ep; [|reflexivity].
+      unfold adj in *. rewrite <- (find_edge_peq (gedges T) _ _ _ _ Ep), Ea. simpl. rewrite E0, Eo. eauto.
+    + intros [= <-]. rewrite adj_set_edge. destruct (peq hu hv a b) eqn:Ep; [|reflexivity].
+      unfold adj in *. rewrite <- (find_edge_peq (gedges T) _ _ _ _ Ep), Ea. simpl. rewrite E0. eauto.
+  - intros [= <-]. unfold adj in *. simpl. rewrite find_edge_app, find_edge_one.
+    destruct (peq hu hv a b) eqn:Ep.
+    + rewrite <- (find_edge_peq (gedges T) _ _ _ _ Ep), Ea. simpl. eauto.
+    + destruct (find_edge a b (gedges T)); reflexivity.
+Qed.
+
+(** the whole fold: every host pair is either untouched or carries the merge of its original bond with the one
+    template edge mapped onto it *)
+Lemma fold_glue_spec m es : forall T T', distinct_images m es ->
+  fold_left (glue_edge m) es (Some T) = Some T' ->
+  forall a b, match find_hit m es a b with
+              | Some x => exists r, merge (adj T a b) x = Some r /\ adj T' a b = Some r
+              | None => adj T' a b = adj T a b
+              end.
+Proof.
+  induction es as [|e r IH]; cbn [fold_left find_hit distinct_images]; intros T T' Hd H a b.
+  - inversion H; reflexivity.
+  - destruct Hd as [Hd1 Hd2].
+    destruct (glue_edge m (Some T) e) as [T1|] eqn:E; [|rewrite fold_glue_none in H; discriminate].
+    pose proof (glue_edge_step m T e T1 a b E) as Hs. specialize (IH T1 T' Hd2 H a b).
+    destruct (hits m e a b) eqn:Eh.
+    + rewrite (Hd1 a b Eh) in IH. destruct Hs as (r0 & Hm & Ha). exists r0. split; [exact Hm|]. rewrite IH. exact Ha.
+    + rewrite Hs in IH. exact IH.
+Qed.
+
+Lemma find_hit_in m es a b x : find_hit m es a b = Some x -> exists e, In e es /\ hits m e a b = true /\ snd e = x.
+Proof.
+  induction es as [|e r IH]; simpl; [discriminate|]. destruct (hits m e a b) eqn:E.
+  - intros [= <-]. exists e. auto.
+  - intros H. destruct (IH H) as (e' & I & Hh & Hx). exists e'. auto.
+Qed.
+Lemma find_hit_none_in m es a b e : find_hit m es a b = None -> In e es -> hits m e a b = false.
+Proof.
+  induction es as [|e0 r IH]; simpl; [intros _ []|]. destruct (hits m e0 a b) eqn:E; [discriminate|].
+  intros H [<-|I]; auto.
+Qed.
+Lemma find_hit_first m es a b e : distinct_images m es -> In e es -> hits m e a b = true -> find_hit m es a b = Some (snd e).
+Proof.
+  induction es as [|e0 r IH]; simpl; [intros _ []|]. intros [Hd1 Hd2] [<-|I] Hh.
+  - rewrite Hh. reflexivity.
+  - destruct (hits m e0 a b) eqn:E; [|auto].
+    rewrite (find_hit_none_in m r a b e (Hd1 a b E) I) in Hh. discriminate.
+Qed.
+
+(** * The hypotheses, as propositions *)
+
+(** injective lookup *)
+Lemma mget_inj m u u' h : NoDup (map snd m) -> mget m u = Some h -> mget m u' = Some h -> u = u'.
+Proof.
+  unfold mget. intros Hnd H1 H2. apply assoc_in in H1. apply assoc_in in H2.
+  induction m as [|[p q] r IH]; [destruct H1|]. simpl in Hnd. inversion Hnd as [|? ? Hn1 Hn2]; subst.
+  destruct H1 as [E1|I1], H2 as [E2|I2].
+  - congruence.
+  - inversion E1; subst. exfalso. apply Hn1. change h with (snd (u', h)). apply in_map. exact I2.
+  - inversion E2; subst. exfalso. apply Hn1. change h with (snd (u, h)). apply in_map. exact I1.
+  - auto.
+Qed.
+
+Lemma simple_edgesb_spec {B} (es : list (N * N * B)) : simple_edgesb es = true ->
+  forall l1 a b x l2, es = l1 ++ (a, b, x) :: l2 -> a <> b /\ forall u v y, In (u, v, y) l2 -> peq u v a b = false.
+Proof.
+  induction es as [|[[a0 b0] x0] r IH]; intros H l1 a b x l2 E.
+  - destruct l1; discriminate.
+  - simpl in H. apply andb_prop in H. destruct H as [H H3]. apply andb_prop in H. destruct H as [H1 H2].
+    destruct l1 as [|e1 l1]; simpl in E; inversion E; subst.
+    + split.
+      * intro; subst. rewrite N.eqb_refl in H1. discriminate.
+      * intros u v y I. apply negb_true_iff in H2.
+        destruct (peq u v a b) eqn:Ep; [|reflexivity].
+        rewrite <- H2. symmetry. apply existsb_exists. exists (u, v, y). auto.
+    + eapply IH; eauto.
+Qed.
+
+Lemma distinct_images_of m (es : list (N * N * iedge)) :
+  NoDup (map snd m) -> simple_edgesb es = true -> distinct_images m es.
+Proof.
+  intros Hm. induction es as [|[[u v] x] r IH]; [simpl; auto|]. intros H.
+  pose proof (simple_edgesb_spec _ H [] u v x r eq_refl) as [Hne Hr].
+  simpl in H. apply andb_prop in H. destruct H as [_ H3]. cbn [distinct_images]. split; [|auto].
+  intros a b Hh. destruct (find_hit m r a b) as [x'|] eqn:Ef; [|reflexivity]. exfalso.
+  apply find_hit_in in Ef. destruct Ef as ([[u' v'] y] & I & Hh' & _).
+  specialize (Hr u' v' y I).
+  unfold hits, img in Hh, Hh'.
+  destruct (mget m u) as [hu|] eqn:E1; [|discriminate]. destruct (mget m v) as [hv|] eqn:E2; [|discriminate].
+  destruct (mget m u') as [hu'|] eqn:E3; [|discriminate]. destruct (mget m v') as [hv'|] eqn:E4; [|discriminate].
+  assert (Hp : peq hu' hv' hu hv = true).
+  { rewrite peq_swap in Hh. rewrite peq_swap in Hh'. rewrite peq_swap. exact (peq_trans _ _ _ _ _ _ Hh Hh'). }
+  unfold peq in Hp, Hr. apply orb_prop in Hp. destruct Hp as [Hp|Hp]; apply andb_prop in Hp; destruct Hp as [Hp1 Hp2];
+    apply N.eqb_eq in Hp1; apply N.eqb_eq in Hp2; subst.
+  - rewrite (mget_inj m u' u hu Hm E3 E1), (mget_inj m v' v hv Hm E4 E2), !N.eqb_refl in Hr. discriminate.
+  - rewrite (mget_inj m u' v hv Hm E3 E2), (mget_inj m v' u hu Hm E4 E1), !N.eqb_refl in Hr. simpl in Hr.
+    rewrite orb_true_r in Hr. discriminate.
+Qed.
+
+(** * Sums over node lists *)
+Definition sumL {V} (w : V -> Z) (l : list (N * V)) : Z := fold_right (fun p acc => w (snd p) + acc) 0 l.
+Definition sumZ (w : inode -> Z) (T : its) : Z := sumL w (gnodes T).
+Definition sumF (G : N -> Z) (l : list N) : Z := fold_right (fun p acc => G p + acc) 0 l.
+
+Lemma map_upd_notin {V} (l : list (N * V)) n (f : V -> V) :
+  ~ In n (map fst l) -> map (fun p => if N.eqb (fst p) n then (fst p, f (snd p)) else p) l = l.
+Proof.
+  induction l as [|[k v] r IH]; simpl; intros H; [reflexivity|].
+  destruct (N.eqb_spec k n); [subst; tauto|]. rewrite IH by tauto. reflexivity.
+Qed.
+
+Lemma sumL_upd {V} (w : V -> Z) (l : list (N * V)) n f a :
+  NoDup (map fst l) -> assoc n l = Some a ->
+  sumL w (map (fun p => if N.eqb (fst p) n then (fst p, f (snd p)) else p) l) = sumL w l - w a + w (f a).
+Proof.
+  induction l as [|[k v] r IH]; simpl; [discriminate|]. intros Hnd Ha. inversion Hnd as [|? ? Hn1 Hn2]; subst.
+  destruct (N.eqb_spec n k).
+  - subst. inversion Ha; subst. rewrite N.eqb_refl. simpl. rewrite map_upd_notin by exact Hn1. lia.
+  - destruct (N.eqb_spec k n); [subst; contradiction|]. simpl. rewrite (IH Hn2 Ha). lia.
+Qed.
+
+Lemma sumZ_upd w (T : its) n f a :
+  NoDup (node_ids T) -> label T n = Some a -> sumZ w (upd_node T n f) = sumZ w T - w a + w (f a).
+Proof. intros. unfold sumZ, upd_node; simpl. apply sumL_upd; assumption. Qed.
+
+Lemma sumF_perm G l l' : Permutation l l' -> sumF G l = sumF G l'.
+Proof. induction 1; simpl; lia. Qed.
+
+Lemma sumF_ids {V} (w : V -> Z) (l : list (N * V)) :
+  NoDup (map fst l) -> sumF (fun p => match assoc p l with Some a => w a | None => 0 end) (map fst l) = sumL w l.
+Proof.
+  intros Hnd.
+  assert (H : forall l0, (forall k v, In (k, v) l0 -> assoc k l = Some v) ->
+            sumF (fun p => match assoc p l with Some a => w a | None => 0 end) (map fst l0) = sumL w l0).
+  { induction l0 as [|[k v] r IH]; simpl; intros Hin; [reflexivity|].
+    rewrite (Hin k v) by auto. rewrite IH; [reflexivity|]. intros; apply Hin; auto. }
+  apply H. intros k v I. apply assoc_nodup_in; assumption.
+Qed.
+
+Definition sum_m (rc : its) (w' : inode -> Z) (m : mapping) : Z :=
+  sumF (fun p => match label rc p with Some pn => w' pn | None => 0 end) (map fst m).
+
+Lemma glue_nodes_sum rc w w' m : forall T,
+  NoDup (node_ids T) -> NoDup (map snd m) ->
+  (forall p h, In (p, h) m -> exists pn hn, label rc p = Some pn /\ label T h = Some hn /\ w (node_glue hn pn) = w hn + w' pn) ->
+  sumZ w (glue_nodes T rc m) = sumZ w T + sum_m rc w' m.
+Proof.
+  induction m as [|[p h] r IH]; intros T HT Hs Hall.
+  - unfold sum_m; simpl. lia.
+  - simpl in Hs. inversion Hs as [|? ? Hs1 Hs2]; subst.
+    destruct (Hall p h (or_introl eq_refl)) as (pn & hn & Hp & Hh & Hw).
+    unfold glue_nodes. simpl. rewrite Hp.
+    assert (Hhn : has_node T h = true) by (apply has_node_label; eauto). rewrite Hhn.
+    fold (glue_nodes (upd_node T h (fun hn0 => node_glue hn0 pn)) rc r).
+    rewrite IH.
+    + rewrite (sumZ_upd w T h _ hn HT Hh). unfold sum_m. simpl. rewrite Hp. fold (sum_m rc w' r). unfold sum_m. lia.
+    + rewrite ids_upd. exact HT.
+    + exact Hs2.
+    + intros p' h' I. destruct (Hall p' h' (or_intror I)) as (pn' & hn' & Hp' & Hh' & Hw').
+      exists pn', hn'. split; [exact Hp'|]. split; [|exact Hw'].
+      rewrite label_upd. destruct (N.eqb_spec h' h); [|exact Hh'].
+      subst. exfalso. apply Hs1. change h with (snd (p', h)). apply in_map. exact I.
+Qed.
+
+(** * The match hypothesis as a proposition, and soundness of its boolean form *)
+Record match_ok (host : hostg) (rc : its) (m : mapping) : Prop := {
+  mo_keys : NoDup (map fst m);
+  mo_vals : NoDup (map snd m);
+  mo_perm : Permutation (node_ids rc) (map fst m);
+  mo_nodes : forall p pn, In (p, pn) (gnodes rc) -> exists h hn, mget m p = Some h /\ label host h = Some hn
+                /\ a_el hn = a_el (iG pn) /\ a_ch hn = a_ch (iG pn) /\ a_hc (iG pn) <= a_hc hn;
+  mo_edges : forall u v x, In (u, v, x) (gedges rc) -> exists hu hv, mget m u = Some hu /\ mget m v = Some hv /\
+                (0 < eG x -> adj host hu hv = Some (eG x)) }.
+
+Lemma match_rcb_sound host rc m : NoDup (node_ids rc) -> match_rcb host rc m = true -> match_ok host rc m.
+Proof.
+  intros Hnd H. unfold match_rcb in H.
+  apply andb_prop in H. destruct H as [H H5]. apply andb_prop in H. destruct H as [H H4].
+  apply andb_prop in H. destruct H as [H H3]. apply andb_prop in H. destruct H as [H1 H2].
+  rewrite forallb_forall in H4, H5.
+  assert (Hn : forall p pn, In (p, pn) (gnodes rc) -> exists h hn, mget m p = Some h /\ label host h = Some hn
+                /\ a_el hn = a_el (iG pn) /\ a_ch hn = a_ch (iG pn) /\ a_hc (iG pn) <= a_hc hn).
+  { intros p pn I. specialize (H4 _ I). unfold rc_node_okb in H4. simpl in H4.
+    destruct (mget m p) as [h|]; [|discriminate]. destruct (label host h) as [hn|] eqn:El; [|discriminate].
+    apply andb_prop in H4. destruct H4 as [H4 Hc]. apply andb_prop in H4. destruct H4 as [Ha Hb].
+    exists h, hn. split; [reflexivity|]. split; [exact El|]. split; [apply N.eqb_eq; exact Ha|].
+    split; [apply Z.eqb_eq; exact Hb|apply Z.leb_le; exact Hc]. }
+  constructor.
+  - apply nodupb_NoDup; exact H1.
+  - apply nodupb_NoDup; exact H2.
+  - apply NoDup_Permutation_bis; [exact Hnd| |].
+    + apply Nat.eqb_eq in H3. unfold node_ids. rewrite !map_length. lia.
+    + intros p I. unfold node_ids in I. apply in_map_iff in I. destruct I as ([p' pn] & E & I). simpl in E; subst.
+      destruct (Hn _ _ I) as (h & _ & Hh & _). unfold mget in Hh. apply assoc_in in Hh.
+      change p with (fst (p, h)). apply in_map. exact Hh.
+  - exact Hn.
+  - intros u v x I. specialize (H5 _ I). unfold rc_edge_okb in H5.
+    destruct (mget m u) as [hu|]; [|discriminate]. destruct (mget m v) as [hv|]; [|discriminate].
+    exists hu, hv. repeat split; auto. intros Hpos. apply Z.ltb_lt in Hpos. rewrite Hpos in H5.
+    destruct (adj host hu hv) as [o|]; [|discriminate]. apply Z.eqb_eq in H5. subst. reflexivity.
+Qed.
+
+Lemma wf_host_pos host a b o : wf_hostb host = true -> adj host a b = Some o -> 0 < o.
+Proof.
+  unfold wf_hostb. intros H Ha. apply andb_prop in H. destruct H as [_ H]. rewrite forallb_forall in H.
+  unfold adj in Ha. apply find_edge_in in Ha. destruct Ha as (p & q & I & _). specialize (H _ I). simpl in H.
+  apply Z.ltb_lt. exact H.
+Qed.
+Lemma wf_host_nodup host : wf_hostb host = true -> NoDup (node_ids host).
+Proof. unfold wf_hostb. intros H. apply andb_prop in H. destruct H as [H _]. apply andb_prop in H. destruct H as [H _]. apply nodupb_NoDup; exact H. Qed.
+Lemma wf_rc_nodup rc : wf_rcb rc = true -> NoDup (node_ids rc).
+Proof. unfold wf_rcb. intros H. apply andb_prop in H. destruct H as [H _]. apply andb_prop in H. destruct H as [H _]. apply nodupb_NoDup; exact H. Qed.
+Lemma wf_rc_simple rc : wf_rcb rc = true -> simple_edgesb (gedges rc) = true.
+Proof. unfold wf_rcb. intros H. apply andb_prop in H. destruct H as [H _]. apply andb_prop in H. destruct H as [_ H]. exact H. Qed.
+Lemma wf_rc_nonneg rc u v x : wf_rcb rc = true -> In (u, v, x) (gedges rc) -> 0 <= eG x /\ 0 <= eH x.
+Proof.
+  unfold wf_rcb. intros H I. apply andb_prop in H. destruct H as [_ H]. rewrite forallb_forall in H.
+  specialize (H _ I). simpl in H. apply andb_prop in H. destruct H as [H1 H2]. split; apply Z.leb_le; assumption.
+Qed.
+
+(** * The glue theorems *)
+Definition bondG (T : its) (a b : N) : option Z :=
+  match adj T a b with Some x => if 0 <? eG x then Some (eG x) else None | None => None end.
+Definition bondH (T : its) (a b : N) : option Z :=
+  match adj T a b with Some x => if 0 <? eH x then Some (eH x) else None | None => None end.
+Definition dH (a : inode) : Z := a_hc (iH a) - a_hc (iG a).
+Definition dQ (a : inode) : Z := a_ch (iH a) - a_ch (iG a).
+
+Section Glue.
+  Variables (host : hostg) (rc : its) (m : mapping) (T : its).
+  Hypothesis Hwh : wf_hostb host = true.
+  Hypothesis Hwr : wf_rcb rc = true.
+  Hypothesis Hm : match_rcb host rc m = true.
+  Hypothesis Hg : glue host rc m = Some T.
+
+  Let T0 := glue_nodes (its_of_host host) rc m.
+  Let MO : match_ok host rc m := match_rcb_sound host rc m (wf_rc_nodup rc Hwr) Hm.
+  Let DI : distinct_images m (gedges rc) := distinct_images_of m (gedges rc) (mo_vals _ _ _ MO) (wf_rc_simple rc Hwr).
+
+  Lemma glue_gnodes : gnodes T = gnodes T0.
+  Proof. unfold glue in Hg. apply (fold_glue_nodes m (gedges rc) T0 T Hg). Qed.
+  Lemma glue_label n : label T n = label T0 n.
+  Proof. unfold label. rewrite glue_gnodes. reflexivity. Qed.
+  Lemma adj_T0 a b : adj T0 a b = option_map lift (adj host a b).
+  Proof. unfold T0, adj. rewrite glue_nodes_edges. apply adj_its_of_host. Qed.
+
+  Lemma glue_adj a b :
+    match find_hit m (gedges rc) a b with
+    | Some x => exists r, merge (option_map lift (adj host a b)) x = Some r /\ adj T a b = Some r
+    | None => adj T a b = option_map lift (adj host a b)
+    end.
+  Proof. pose proof (fold_glue_spec m (gedges rc) T0 T DI Hg a b) as H. rewrite adj_T0 in H. exact H. Qed.
+
+  (** an rc edge, its image pair *)
+  Lemma edge_image u v x : In (u, v, x) (gedges rc) ->
+    exists hu hv, mget m u = Some hu /\ mget m v = Some hv /\ find_hit m (gedges rc) hu hv = Some x
+                  /\ (0 < eG x -> adj host hu hv = Some (eG x)).
+  Proof.
+    intros I. destruct (mo_edges _ _ _ MO u v x I) as (hu & hv & E1 & E2 & E3).
+    exists hu, hv. repeat split; auto.
+    apply (find_hit_first m (gedges rc) hu hv (u, v, x) DI I). unfold hits, img. rewrite E1, E2. apply peq_refl.
+  Qed.
+  Lemma hit_edge a b x : find_hit m (gedges rc) a b = Some x ->
+    exists u v hu hv, In (u, v, x) (gedges rc) /\ mget m u = Some hu /\ mget m v = Some hv /\ peq hu hv a b = true
+                      /\ (0 < eG x -> adj host a b = Some (eG x)).
+  Proof.
+    intros H. apply find_hit_in in H. destruct H as ([[u v] x'] & I & Hh & E). simpl in E; subst.
+    destruct (mo_edges _ _ _ MO u v x I) as (hu & hv & E1 & E2 & E3).
+    unfold hits, img in Hh. rewrite E1, E2 in Hh. exists u, v, hu, hv. repeat split; auto.
+    intros Hp. unfold adj in *. rewrite <- (find_edge_peq (gedges host) _ _ _ _ Hh). auto.
+  Qed.
+
+  (** ** (a) the reactant side of the glued ITS is the host *)
+  Theorem left_is_host :
+    node_ids T = node_ids host /\ (forall n, option_map iG (label T n) = label host n) /\ (forall a b, bondG T a b = adj host a b).
+  Proof.
+    split; [|split].
+    - unfold node_ids. rewrite glue_gnodes. fold (node_ids T0). unfold T0. rewrite glue_nodes_ids. apply ids_its_of_host.
+    - intros n. rewrite glue_label. unfold T0. rewrite glue_nodes_iG, label_its_of_host. destruct (label host n); reflexivity.
+    - intros a b. unfold bondG. pose proof (glue_adj a b) as H.
+      destruct (find_hit m (gedges rc) a b) as [x|] eqn:Ef.
+      + destruct H as (r & Hmr & Ha). rewrite Ha.
+        destruct (hit_edge a b x Ef) as (u & v & hu & hv & I & _ & _ & _ & Hpos).
+        destruct (wf_rc_nonneg rc u v x Hwr I) as [Hg0 _].
+        destruct (adj host a b) as [o|] eqn:Eo; simpl in Hmr.
+        * pose proof (wf_host_pos host a b o Hwh Eo) as Ho.
+          destruct (Z.eqb_spec (eG x) 0) as [E0|E0].
+          -- destruct (Z.odd (eH (lift o) + eH x)); [discriminate|]. inversion Hmr; subst. unfold lift, eG; simpl.
+             destruct (Z.ltb_spec 0 o); [reflexivity|lia].
+          -- inversion Hmr; subst. assert (Hp : 0 < eG r) by lia. specialize (Hpos Hp). inversion Hpos; subst.
+             destruct (Z.ltb_spec 0 (eG r)); [reflexivity|lia].
+        * inversion Hmr; subst. destruct (Z.ltb_spec 0 (eG r)) as [Hp|]; [|reflexivity].
+          specialize (Hpos Hp). discriminate.
+      + rewrite H. destruct (adj host a b) as [o|] eqn:Eo; simpl; [|reflexivity].
+        pose proof (wf_host_pos host a b o Hwh Eo). unfold lift, eG; simpl. destruct (Z.ltb_spec 0 o); [reflexivity|lia].
+  Qed.
+
+  (** ** node labels of the result *)
+  Lemma glued_node p h pn : mget m p = Some h -> In (p, pn) (gnodes rc) ->
+    exists hn, label host h = Some hn /\
+      label T h = Some (IN hn (NA (a_el hn) (a_aro hn) (a_hc hn - (a_hc (iG pn) - a_hc (iH pn))) (a_ch (iH pn)) (a_nb hn)) 0
+                           (match i_hp pn with Some l => Some l | None => None end)).
+  Proof.
+    intros E I. destruct (mo_nodes _ _ _ MO p pn I) as (h' & hn & E' & Hh & _). rewrite E in E'. inversion E'; subst h'.
+    exists hn. split; [exact Hh|]. rewrite glue_label. unfold T0.
+    rewrite (glue_nodes_at (its_of_host host) rc m p h pn (IN hn hn 0 None)); [reflexivity| | | | |].
+    - exact (mo_vals _ _ _ MO). - unfold mget in E. apply assoc_in in E. exact E. - exact (mo_keys _ _ _ MO).
+    - apply assoc_nodup_in; [exact (wf_rc_nodup rc Hwr)|exact I].
+    - rewrite label_its_of_host, Hh. reflexivity.
+  Qed.
+  Lemma unglued_node h : ~ In h (map snd m) -> label T h = option_map (fun t => IN t t 0 None) (label host h).
+  Proof. intros H. rewrite glue_label. unfold T0. rewrite glue_nodes_other by exact H. apply label_its_of_host. Qed.
+
+  (** ** (b) hydrogen and charge totals change exactly as in the rule; elements never change *)
+  Lemma sum_m_rc w' : sum_m rc w' m = sumZ w' rc.
+  Proof.
+    unfold sum_m. rewrite <- (sumF_perm _ _ _ (mo_perm _ _ _ MO)). unfold sumZ, label, node_ids.
+    apply sumF_ids. exact (wf_rc_nodup rc Hwr).
+  Qed.
+
+  Lemma sum_glued w w' :
+    (forall t, w (IN t t 0 None) = 0) ->
+    (forall p h pn hn, In (p, h) m -> In (p, pn) (gnodes rc) -> label host h = Some hn ->
+                       w (node_glue (IN hn hn 0 None) pn) = w' pn) ->
+    sumZ w T = sumZ w' rc.
+  Proof.
+    intros Hclean Hw. unfold sumZ at 1. rewrite glue_gnodes. fold (sumZ w T0). unfold T0.
+    rewrite (glue_nodes_sum rc w w' m).
+    - rewrite sum_m_rc. assert (E : sumZ w (its_of_host host) = 0); [|lia].
+      unfold sumZ, its_of_host; simpl. induction (gnodes host) as [|[k v] r IH]; simpl; [reflexivity|]. rewrite Hclean, IH. reflexivity.
+    - rewrite ids_its_of_host. exact (wf_host_nodup host Hwh).
+    - exact (mo_vals _ _ _ MO).
+    - intros p h I.
+      assert (Ip : In p (node_ids rc)).
+      { apply (Permutation_in _ (Permutation_sym (mo_perm _ _ _ MO))). change p with (fst (p, h)). apply in_map. exact I. }
+      unfold node_ids in Ip. apply in_map_iff in Ip. destruct Ip as ([p' pn] & E & Ip). simpl in E; subst p'.
+      destruct (mo_nodes _ _ _ MO p pn Ip) as (h' & hn & E' & Hh & _).
+      assert (h' = h).
+      { unfold mget in E'. apply assoc_in in E'.
+        pose proof (mo_keys _ _ _ MO) as Hk. clear - E' I Hk.
+        induction m as [|[a b] r IH]; [destruct I|]. simpl in Hk. inversion Hk as [|? ? K1 K2]; subst.
+        destruct I as [I|I], E' as [E|E].
+        - congruence.
+        - inversion I; subst. exfalso. apply K1. change p with (fst (p, h')). apply in_map. exact E.
+        - inversion E; subst. exfalso. apply K1. change p with (fst (p, h)). apply in_map. exact I.
+        - auto. }
+      subst h'. exists pn, (IN hn hn 0 None). split; [|split].
+      + apply assoc_nodup_in; [exact (wf_rc_nodup rc Hwr)|exact Ip].
+      + rewrite label_its_of_host, Hh. reflexivity.
+      + rewrite Hclean. rewrite (Hw p h pn hn I Ip Hh). lia.
+  Qed.
+
+  Theorem conserve :
+    sumZ dH T = sumZ dH rc /\ sumZ dQ T = sumZ dQ rc /\ (forall n a, label T n = Some a -> a_el (iH a) = a_el (iG a)).
+  Proof.
+    split; [|split].
+    - apply sum_glued.
+      + intros t. unfold dH; simpl. lia.
+      + intros p h pn hn _ _ _. unfold dH, node_glue; simpl. lia.
+    - apply sum_glued.
+      + intros t. unfold dQ; simpl. lia.
+      + intros p h pn hn I Ip Hh. unfold dQ, node_glue; simpl.
+        destruct (mo_nodes _ _ _ MO p pn Ip) as (h' & hn' & E' & Hh' & _ & Hc & _).
+        assert (In (p, h') m) by (unfold mget in E'; apply assoc_in in E'; exact E').
+        assert (h' = h).
+        { pose proof (mo_keys _ _ _ MO) as Hk. clear - H I Hk.
+          induction m as [|[a b] r IH]; [destruct I|]. simpl in Hk. inversion Hk as [|? ? K1 K2]; subst.
+          destruct I as [I|I], H as [E|E].
+          - congruence.
+          - inversion I; subst. exfalso. apply K1. change p with (fst (p, h')). apply in_map. exact E.
+          - inversion E; subst. exfalso. apply K1. change p with (fst (p, h)). apply in_map. exact I.
+          - auto. }
+        subst h'. rewrite Hh in Hh'. inversion Hh'; subst. lia.
+    - intros n a Ha. destruct (in_dec N.eq_dec n (map snd m)) as [I|NI].
+      + apply in_map_iff in I. destruct I as ([p h] & E & I). simpl in E; subst h.
+        assert (Ip : In p (node_ids rc)).
+        { apply (Permutation_in _ (Permutation_sym (mo_perm _ _ _ MO))). change p with (fst (p, n)). apply in_map. exact I. }
+        unfold node_ids in Ip. apply in_map_iff in Ip. destruct Ip as ([p' pn] & E & Ip). simpl in E; subst p'.
+        assert (Eg : mget m p = Some n) by (apply assoc_nodup_in; [exact (mo_keys _ _ _ MO)|exact I]).
+        destruct (glued_node p n pn Eg Ip) as (hn & _ & Hl). rewrite Hl in Ha. inversion Ha; subst. reflexivity.
+      + rewrite (unglued_node n NI) in Ha. destruct (label host n); inversion Ha; subst. reflexivity.
+  Qed.
+
+  (** ** (c) the changed bonds of the result are the image of the rule's changed bonds, with equal order changes *)
+  Theorem unchanged_elsewhere a b : find_hit m (gedges rc) a b = None -> adj T a b = option_map lift (adj host a b).
+  Proof. intros H. pose proof (glue_adj a b) as G. rewrite H in G. exact G. Qed.
+
+  Lemma merged_delta cur x r : (forall y, cur = Some y -> eG y = eH y) -> merge cur x = Some r -> eH r - eG r = eH x - eG x.
+  Proof.
+    intros Hc. destruct cur as [y|]; simpl.
+    - destruct (Z.eqb_spec (eG x) 0).
+      + destruct (Z.odd _); [discriminate|]. intros [= <-]. specialize (Hc y eq_refl). unfold eG, eH in *; simpl in *. lia.
+      + intros [= <-]. reflexivity.
+    - intros [= <-]. reflexivity.
+  Qed.
+
+  Theorem changes_image u v x : In (u, v, x) (gedges rc) ->
+    exists hu hv y, mget m u = Some hu /\ mget m v = Some hv /\ adj T hu hv = Some y /\ eH y - eG y = eH x - eG x.
+  Proof.
+    intros I. destruct (edge_image u v x I) as (hu & hv & E1 & E2 & Ef & _).
+    pose proof (glue_adj hu hv) as G. rewrite Ef in G. destruct G as (r & Hmr & Ha).
+    exists hu, hv, r. repeat split; auto. eapply merged_delta; [|exact Hmr].
+    intros y Hy. destruct (adj host hu hv); inversion Hy; subst. reflexivity.
+  Qed.
+
+  Theorem changes_only a b y : adj T a b = Some y -> eG y <> eH y ->
+    exists u v x, In (u, v, x) (gedges rc) /\ hits m (u, v, x) a b = true /\ eH y - eG y = eH x - eG x.
+  Proof.
+    intros Ha Hne. pose proof (glue_adj a b) as G. destruct (find_hit m (gedges rc) a b) as [x|] eqn:Ef.
+    - destruct G as (r & Hmr & Ha'). rewrite Ha in Ha'. inversion Ha'; subst r.
+      apply find_hit_in in Ef. destruct Ef as ([[u v] x'] & I & Hh & E). simpl in E; subst x'.
+      exists u, v, x. repeat split; auto. eapply merged_delta; [|exact Hmr].
+      intros y0 Hy. destruct (adj host a b); inversion Hy; subst. reflexivity.
+    - rewrite Ha in G. destruct (adj host a b); inversion G; subst. exfalso. apply Hne. reflexivity.
+  Qed.
+
+  (** ** the additive branch, exactly: no rounding; an odd half-unit sum produces no ITS at all *)
+  Theorem additive u v x hu hv o : In (u, v, x) (gedges rc) -> eG x = 0 ->
+    mget m u = Some hu -> mget m v = Some hv -> adj host hu hv = Some o ->
+    adj T hu hv = Some (o, o + eH x, eS x) /\ Z.odd (o + eH x) = false.
+  Proof.
+    intros I E0 E1 E2 Eo. destruct (edge_image u v x I) as (hu' & hv' & E1' & E2' & Ef & _).
+    rewrite E1 in E1'. rewrite E2 in E2'. inversion E1'; inversion E2'; subst hu' hv'.
+    pose proof (glue_adj hu hv) as G. rewrite Ef, Eo in G. destruct G as (r & Hmr & Ha). simpl in Hmr.
+    rewrite E0 in Hmr. simpl in Hmr. unfold lift, eH, eS, eG in *; simpl in *.
+    destruct (Z.odd (o + snd (fst x))) eqn:Eodd; [discriminate|]. inversion Hmr; subst. split; [|reflexivity].
+    rewrite Ha. f_equal.
+  Qed.
+
+  (** ** standard_order stays order_G - order_H (the premise C02 needs for glued ITS graphs) *)
+  Theorem std_consistent_glue :
+    (forall u v x, In (u, v, x) (gedges rc) -> eS x = eG x - eH x) ->
+    forall a b y, adj T a b = Some y -> eS y = eG y - eH y.
+  Proof.
+    intros Hrc a b y Ha. pose proof (glue_adj a b) as G. destruct (find_hit m (gedges rc) a b) as [x|] eqn:Ef.
+    - destruct G as (r & Hmr & Ha'). rewrite Ha in Ha'. inversion Ha'; subst r.
+      apply find_hit_in in Ef. destruct Ef as ([[u v] x'] & I & _ & E). simpl in E; subst x'.
+      specialize (Hrc u v x I). destruct (adj host a b) as [o|]; simpl in Hmr.
+      + destruct (Z.eqb_spec (eG x) 0).
+        * destruct (Z.odd _); [discriminate|]. inversion Hmr; subst. unfold lift, eG, eH, eS in *; simpl in *. lia.
+        * inversion Hmr; subst. exact Hrc.
+      + inversion Hmr; subst. exact Hrc.
+    - rewrite Ha in G. destruct (adj host a b); inversion G; subst. unfold lift, eG, eH, eS; simpl. lia.
+  Qed.
+End Glue.
